@@ -1342,6 +1342,505 @@ def failed_request_end_rule(chk, rid, repo):
                key=f"{_A}:{nc.name}:node-class-of-the-async-transport")
 
 
+# ---- strengthening round 5: the sample type follows the task's clock (O4.9), a failed request passes the feedback to the schedule (O4.10), the sampler's queue holds what the
+# configuration says (O4.11) -----------------------------------------------------------------------------------------------------------------------------------------------------------
+_S = "esrally/driver/scheduler.py"
+
+
+def sample_type_clock_rule(chk, rid, repo):
+    """Every sample carries the sample type that belongs to its ISSUE TIME: for a time-based task the schedule decides warm-up vs. measurement (and the end of the time period) by
+    the time elapsed since its timer was started, and that timer belongs to the task, not to the client - rally only validates warmup-time-period >= ramp-up-time-period. A
+    client that rally itself holds back for d seconds (ramp-up) must therefore start the timer when the executor is entered, BEFORE its ramp-up wait: started after it, every
+    request the client issues between W and W + d after the task start is recorded as warm-up (and vanishes from latency / service time / throughput) and the client keeps
+    issuing requests for d seconds after warm-up + time-period is over. Decided on values by walking AsyncExecutor.__call__ on a virtual clock with a ramp-up wait of 4 s and of
+    0 s (the walk and the obligation are owned by rules/C05.py, shared with C07/O7.11): the call that starts the handle's timer is made exactly once, at the client's entry."""
+    drv = repo.module(_D)
+    chk.rule(rid, "the sample type a request is recorded with follows from its issue time relative to the start of the TASK: the timer of the schedule that decides warm-up vs. "
+             "measurement (and the end of a time period) is started once, when the executor is entered - before the client's ramp-up wait", 1,
+             "a time-based task with ramp-up: a client that starts d seconds late records what it issues between W and W + d after the task start as warm-up samples (missing from "
+             "every reported latency / service time / throughput) and keeps issuing requests for d seconds after the task's time period is over")
+    from rules.C05 import timer_before_rampup_rule
+
+    timer_before_rampup_rule(chk, rid, drv, "the warm-up / measurement clock of client i starts ramp-up * i / total late: the sample type of its requests no longer matches their issue time")
+
+
+def _const_number(e):
+    """value of an expression built from number literals and arithmetic / shift operators only (`1 << 20`, `2 ** 20`, `16 * 1024`); None for anything else"""
+    import operator as op_
+
+    ops = {ast.Add: op_.add, ast.Sub: op_.sub, ast.Mult: op_.mul, ast.FloorDiv: op_.floordiv, ast.LShift: op_.lshift, ast.RShift: op_.rshift, ast.Pow: op_.pow}
+    if isinstance(e, ast.Constant) and isinstance(e.value, (int, float)) and not isinstance(e.value, bool):
+        return e.value
+    if isinstance(e, ast.UnaryOp) and isinstance(e.op, ast.USub):
+        v = _const_number(e.operand)
+        return None if v is None else -v
+    if isinstance(e, ast.BinOp) and type(e.op) in ops:
+        a, b = _const_number(e.left), _const_number(e.right)
+        if a is None or b is None or (isinstance(e.op, (ast.LShift, ast.Pow)) and not (isinstance(b, int) and 0 <= b <= 64)):
+            return None
+        try:
+            return ops[type(e.op)](a, b)
+        except (ZeroDivisionError, TypeError, ValueError, OverflowError):
+            return None
+    return None
+
+
+_CAP = 777777  # representative configured capacity (neither the constructor's default nor the documented default of the option)
+_CAP_KEY = "sample.queue.size"
+_BOUNDED = {"Queue": ("maxsize", 0), "LifoQueue": ("maxsize", 0), "PriorityQueue": ("maxsize", 0), "deque": ("maxlen", 1)}  # constructor -> (keyword, position) of its capacity
+_UNBOUNDED = {"SimpleQueue"}
+
+
+def sampler_queue(drv):
+    """(Sampler.__init__, name of its parameter that IS the capacity of the queue the samples are put into | None: the queue is unbounded, the queue construction, detail,
+    verdict) - verdict True: the capacity is the parameter's value (or there is none), False: located and not, None: not recognised. The queue is located by role: the attribute
+    of the sampler that the Sample-constructing method puts the sample into; its capacity is decided on VALUES (the extracted capacity expression evaluated with the
+    representative capacity in the place of each constructor parameter)."""
+    samp = drv.cls("Sampler")
+    add_fn, _ = sampler_add_fn(drv)
+    adefs = all_defs(add_fn)
+    recv = set()
+    for n in walk_body(add_fn):
+        if isinstance(n, ast.Call) and isinstance(n.func, ast.Attribute) and n.func.attr in ("put_nowait", "put", "append", "appendleft"):
+            r = _root(n.func.value, adefs)
+            if is_self_attr(r):
+                recv.add(r.attr)
+    if len(recv) != 1:
+        raise AnchorMissing(f"the attribute of Sampler that {add_fn.name}() puts the sample into (put_nowait / put / append on self.<attr>): {sorted(recv) or 'none'} found")
+    qattr = recv.pop()
+    sets = [(n, m) for m in drv.methods(samp).values() for n in walk_body(m) if isinstance(n, ast.Assign) and any(is_self_attr(t, qattr) for t in n.targets)]
+    init = drv.methods(samp).get("__init__")
+    if len(sets) != 1 or init is None or sets[0][1] is not init or not isinstance(sets[0][0].value, ast.Call):
+        raise AnchorMissing(f"the one construction of Sampler.{qattr} in Sampler.__init__ ({len(sets)} binding(s) of the attribute found)")
+    made = sets[0][0].value
+    kind = last_attr(made.func)
+    if kind in _UNBOUNDED:
+        return init, None, made, f"self.{qattr} = {short(made, 60)}: unbounded", True
+    if kind not in _BOUNDED or any(isinstance(a, ast.Starred) for a in made.args) or any(k.arg is None for k in made.keywords):
+        return init, None, made, f"self.{qattr} = {short(made, 60)}: not a queue of the standard library whose capacity can be read off", None
+    kw, pos = _BOUNDED[kind]
+    cap = arg_of(made, pos, kw)
+    if cap is None:
+        return init, None, made, f"self.{qattr} = {short(made, 60)}: no capacity given, unbounded", True
+    cap = source.inline_node(cap, local_defs(init), no_calls=False)
+    a = init.args
+    names = [x.arg for x in a.posonlyargs + a.args][1:] + [x.arg for x in a.kwonlyargs]
+    dflt = {x.arg: d for x, d in zip(reversed(a.posonlyargs + a.args), reversed(a.defaults))}
+    dflt.update({x.arg: d for x, d in zip(a.kwonlyargs, a.kw_defaults) if d is not None})
+    env0 = {}
+    for p, d in dflt.items():
+        v = _const_number(d)
+        if v is not None:
+            env0[p] = v
+    used = [p for p in names if any(isinstance(n, ast.Name) and n.id == p for n in ast.walk(cap))]
+    shown = f"self.{qattr} = {short(made, 60)} with capacity `{u(cap)}`"
+    if not used:
+        try:
+            v = _ev(cap, env0)
+        except (CannotEval, TypeError, ValueError, KeyError, AttributeError, ZeroDivisionError):
+            return init, None, made, shown + ": cannot be evaluated", None
+        if v is None or (isinstance(v, (int, float)) and not isinstance(v, bool) and v <= 0):
+            return init, None, made, shown + ": unbounded", True
+        return init, None, made, shown + f": a fixed capacity of {v!r} whatever the sampler is constructed for", False
+    got = {}
+    for p in used:
+        try:
+            got[p] = _ev(cap, {**env0, p: _CAP})
+        except (CannotEval, TypeError, ValueError, KeyError, AttributeError, ZeroDivisionError):
+            return init, None, made, shown + f": cannot be evaluated for {p} = {_CAP}", None
+    hit = [p for p, v in got.items() if isinstance(v, (int, float)) and not isinstance(v, bool) and v == _CAP]
+    if len(hit) == 1:
+        return init, hit[0], made, shown + f": {hit[0]} = {_CAP} gives a queue of {got[hit[0]]!r}", True
+    return init, None, made, shown + f": constructed with {', '.join(f'{p} = {_CAP}' for p in used)} the queue holds {', '.join(repr(v) for v in got.values())} samples", False
+
+
+def _config_reads(e):
+    """[(the call, [its literal arguments])] for the reads of the configuration in e: `<config>.opts(section, key, ...)`"""
+    return [(n, [a.value for a in list(n.args) + [k.value for k in n.keywords] if isinstance(a, ast.Constant) and isinstance(a.value, str)])
+            for n in ast.walk(e) if isinstance(n, ast.Call) and isinstance(n.func, ast.Attribute) and n.func.attr == "opts"]
+
+
+def sampler_capacity_rule(chk, rid, repo):
+    """"Exactly one sample is recorded per executed request" has one hole by construction: Sampler.add puts the sample into a bounded queue without blocking and DROPS it (a log
+    line) when the queue is full; the worker empties the queue only on its periodic wake-up. Rally closes the hole by configuration: `reporting/sample.queue.size` (documented,
+    default 2^20) is the number of samples the queue can hold between two wake-ups. Necessary condition, by data flow and decided on values: the capacity of the queue the
+    samples are put into (located by role, see sampler_queue) IS the value every Sampler(...) construction of the driver hands over for it, and that value IS the configured
+    one - the argument expression, followed through locals and through the attribute of the constructing class it is kept in, is evaluated with the representative capacity
+    777777 (as the number the default gives and as the string an ini file gives) in the place of the configuration read. A sampler constructed with the constructor's own small
+    default, with a constant, with a clamped value or from another option silently loses every sample beyond that bound within one wake-up period."""
+    drv = repo.module(_D)
+    chk.use("docs/configuration.rst")
+    chk.rule(rid, "the only place where a recorded sample can be dropped - the sampler's bounded queue - holds as many samples as the configuration says: the capacity of the queue is "
+             "the value the sampler is constructed with, and every Sampler(...) of the driver is constructed with reporting/sample.queue.size (documented default 2^20)", 2,
+             "a worker that executes more requests between two wake-ups than the (smaller) bound in force drops the samples beyond it: requests without a sample, missing from "
+             "latency / service time / throughput")
+    init, cap_param, made_q, qdetail, verdict = sampler_queue(drv)
+    if verdict is None:
+        chk.unknown(rid, f"the capacity of the sampler's queue: {qdetail}", made_q)
+        return
+    chk.ob(rid, "the sampler's queue is unbounded or holds as many samples as the sampler is constructed for", verdict, made_q, qdetail, key=f"{_D}:Sampler.__init__:queue-capacity-is-the-constructor-argument")
+    sites = [c for c in ast.walk(drv.tree) if isinstance(c, ast.Call) and last_attr(c.func) == "Sampler" and source.enclosing_func(c) is not None
+             and getattr(source.enclosing_class(c), "name", None) != "Sampler"]
+    if not sites:
+        raise AnchorMissing("a construction Sampler(...) in the driver module")
+    if not verdict:
+        return
+    doc = repo.text("docs/configuration.rst")
+    import re as _re
+
+    m_ = _re.search(r"``" + _re.escape(_CAP_KEY) + r"``\s*\(default:\s*(\d+)\s*(?:\^|\*\*)\s*(\d+)\s*\)", doc) or _re.search(r"``" + _re.escape(_CAP_KEY) + r"``\s*\(default:\s*(\d+)\s*\)", doc)
+    documented = None if m_ is None else int(m_.group(1)) ** int(m_.group(2)) if m_.lastindex == 2 else int(m_.group(1))
+    for c in sites:
+        fn, k = source.enclosing_func(c), source.enclosing_class(c)
+        where = f"{k.name + '.' if k is not None else ''}{fn.name}"
+        key = f"{_D}:{where}:Sampler:capacity-from-configuration"
+        title = f"the sampler constructed in {where} holds reporting/{_CAP_KEY} samples"
+        if cap_param is None:
+            chk.ob(rid, title, True, c, "the queue is unbounded: nothing to configure, nothing is dropped", key=key)
+            continue
+        if any(isinstance(a, ast.Starred) for a in c.args) or any(kw.arg is None for kw in c.keywords):
+            chk.unknown(rid, f"`{short(c, 70)}`: the arguments are unpacked, the value handed over as {cap_param} cannot be read off", c)
+            continue
+        arg = bind_args(c, init).get(cap_param)
+        if arg is None:
+            d = {x.arg: d_ for x, d_ in zip(reversed(init.args.posonlyargs + init.args.args), reversed(init.args.defaults))}.get(cap_param)
+            chk.ob(rid, title, False, c, f"`{short(c, 70)}` does not pass {cap_param}: the queue holds the constructor's default of {u(d) if d is not None else '?'} samples, the configured "
+                   f"reporting/{_CAP_KEY} is not consulted - every sample beyond that within one wake-up period is dropped", key=key)
+            continue
+        # the value handed over, as expressions over configuration reads: locals folded, an attribute of the constructing object replaced by what the class binds it to
+        e0 = source.inline_node(arg, local_defs(fn), no_calls=False)
+        attrs = sorted({n.attr for n in ast.walk(e0) if is_self_attr(n)})
+        cands = [e0]
+        lost = None
+        for a_ in attrs:
+            binds = [(n.value, m) for m in (drv.methods(k).values() if k is not None else ()) for n in walk_body(m) if isinstance(n, (ast.Assign, ast.AnnAssign)) and n.value is not None
+                     and any(is_self_attr(t, a_) for t in (n.targets if isinstance(n, ast.Assign) else [n.target])) and not source.is_const(n.value, None)]
+            if not binds or len(binds) > 4:
+                lost = f"self.{a_} has {len(binds)} binding(s) in {k.name if k is not None else 'no class'}"
+                break
+            nxt = []
+            for v, m in binds:
+                v = source.inline_node(v, local_defs(m), no_calls=False)
+                for e_ in cands:
+                    class R(ast.NodeTransformer):
+                        def visit_Attribute(self, n, a_=a_, v=v):
+                            return source.clone(v) if is_self_attr(n, a_) else self.generic_visit(n)
+
+                    nxt.append(R().visit(source.clone(e_)))
+            cands = nxt
+        if lost is not None:
+            chk.unknown(rid, f"the value `{u(arg)}` handed to Sampler(...) as {cap_param} cannot be followed: {lost}", c)
+            continue
+        verdicts, defaults = [], {}
+        for e_ in cands:
+            reads = _config_reads(e_)
+            mine = [(n, lits) for n, lits in reads if _CAP_KEY in lits]
+            if not mine:
+                free = [n for n in ast.walk(e_) if isinstance(n, (ast.Name, ast.Attribute, ast.Call)) and not (isinstance(n, ast.Call) and dotted(n.func) in ("int", "float", "max", "min", "round", "abs"))
+                        and not (isinstance(n, ast.Name) and n.id in ("int", "float", "max", "min", "round", "abs"))]
+                if reads:
+                    verdicts.append((False, f"`{u(e_)[:120]}` reads {[l for _, l in reads]} from the configuration, not reporting/{_CAP_KEY}"))
+                elif not free:
+                    verdicts.append((False, f"`{u(e_)[:120]}` is a fixed capacity, the configured reporting/{_CAP_KEY} is not consulted"))
+                else:
+                    verdicts.append((None, f"`{u(e_)[:120]}` cannot be followed to a read of the configuration"))
+                continue
+            sect = [lits[0] for n, lits in mine if n.args and isinstance(n.args[0], ast.Constant) and lits and lits[0] != _CAP_KEY]
+            if any(s_ != "reporting" for s_ in sect):
+                verdicts.append((False, f"`{u(e_)[:120]}` reads {_CAP_KEY} from the section {sect} (documented: reporting)"))
+                continue
+            vals = []
+            texts = {u(x) for x, _ in mine}
+            for rep in (_CAP, str(_CAP)):
+                class R2(ast.NodeTransformer):
+                    def visit_Call(self, n, rep=rep):
+                        return ast.Constant(value=rep) if u(n) in texts else self.generic_visit(n)
+
+                try:
+                    vals.append(_ev(R2().visit(source.clone(e_)), {}))
+                except (CannotEval, TypeError, ValueError, KeyError, AttributeError, ZeroDivisionError):
+                    vals.append(None)
+            verdicts.append((None if any(v is None for v in vals) else all(isinstance(v, (int, float)) and not isinstance(v, bool) and v == _CAP for v in vals),
+                             f"with reporting/{_CAP_KEY} = {_CAP} (number) / '{_CAP}' (text of an ini file) `{short(c, 60)}` is handed {cap_param} = {vals[0]!r} / {vals[1]!r}"))
+            for n, _ in mine:
+                dv = arg_of(n, None, "default_value")
+                num = _const_number(dv) if dv is not None else None
+                if num is not None and documented is not None:
+                    defaults[u(n)] = (dv, num)
+        for dv, num in defaults.values():
+            chk.ob(rid, f"default of reporting/{_CAP_KEY} as documented", num == documented, c, f"default_value = {u(dv)} = {num}; docs/configuration.rst: {m_.group(0)[:70]} = {documented}",
+                   key=f"{_D}:{where}:{_CAP_KEY}:documented-default")
+        bad = [d for v, d in verdicts if v is False]
+        unk = [d for v, d in verdicts if v is None]
+        if bad:
+            chk.ob(rid, title, False, c, bad[0], key=key)
+        elif unk:
+            chk.unknown(rid, f"the value handed to Sampler(...) as {cap_param}: {unk[0]}", c)
+        else:
+            chk.ob(rid, title, True, c, "; ".join(d for _, d in verdicts), key=key)
+
+
+def failure_results(drv):
+    """[(number of operations, unit, handler)] that execute_single reports from its absorbing handlers (the handler's own binding of the member of the result triple, else the
+    default bound unconditionally before the request's try); a member that is not one literal is None"""
+    es = drv.func("execute_single")
+    ge = cfg_of(es)
+    trys = [n for n in walk_body(es) if isinstance(n, ast.Try)]
+    rets = [n for n in source.flat(es.body) if isinstance(n, ast.Return)]
+    rv = _root(rets[0].value, local_defs(es)) if len(rets) == 1 and rets[0].value is not None else None
+    triple = [x.id for x in rv.elts] if isinstance(rv, ast.Tuple) and len(rv.elts) == 3 and all(isinstance(x, ast.Name) for x in rv.elts) else None
+    if not trys or triple is None:
+        raise AnchorMissing("execute_single: the request's try and the single result tuple (operations, unit, meta data)")
+    flat_ = source.flat(es.body)
+    before_try = flat_[:([i for i, s_ in enumerate(flat_) if s_ is trys[0]] or [0])[0]]
+    out = []
+    for h in trys[0].handlers:
+        if not any(ge.exit.id in ge.reachable([x]) for x in ge.by_ast.get(id(h), [])):
+            continue
+
+        def lit(name):
+            srcs = value_sources(es, name, drv, region=h.body) or [x for x in value_sources(es, name, drv, region=before_try) if not guards(x[1])][-1:]
+            vals = {x[0].value for x in srcs if isinstance(x[0], ast.Constant)}
+            return vals.pop() if srcs and len(vals) == 1 and all(isinstance(x[0], ast.Constant) for x in srcs) else None
+
+        out.append((lit(triple[0]), lit(triple[1]), h))
+    return out
+
+
+def _split(items, sep):
+    out, cur = [], []
+    for x in items:
+        if x == sep:
+            out.append(cur)
+            cur = []
+        else:
+            cur.append(x)
+    return [p for p in out + [cur] if p]
+
+
+class _RequestsRun:
+    """One walk of AsyncExecutor.__call__ by the value machine of rules/C05.py (a general interpreter of the analysed statements on stand-in objects; no repository code runs)
+    through len(outcomes) requests: `execute_single` is a stand-in that returns outcomes[i] = (operations, unit, meta data) for the i-th request - the result triples the real
+    function reports -, the schedule handle and every other constructor argument of the executor are recording stand-ins, clocks are virtual. Everything after the request -
+    the feedback to the schedule, the formulas, the hand-over to the sampler - is walked as written, helpers included.
+      events   in program order: ('request', i) | ('handle', method, args, kwargs) | ('other', constructor parameter, method, args, kwargs)
+      error    name of the exception that left the executor (None: it returned)"""
+
+    def __init__(self, drv, outcomes):
+        from rules.C05 import _MISSING, _Cls, _ctor_params, _ExecutorRun, _Machine, _Obj, _Rse
+
+        AE = drv.cls("AsyncExecutor")
+        names = _ctor_params(drv, AE)
+        handle_at = _ExecutorRun.handle_param(drv)
+        self.events, self.error, self.clock = [], None, [100.0]
+        self.metas = [dict(o[2]) for o in outcomes]
+        run = self
+        runner = _Obj("runner", completed=None, percent_completed=None)
+
+        def handle_load(attr):
+            return 0 if attr == "ramp_up_wait_time" else _MISSING
+
+        def handle_call(attr, args, kwargs):
+            if attr == "__call__":
+                return [(0.5 * (i + 1), f"sample type {i}", 0.1 * (i + 1), runner, {"body": i}) for i in range(len(outcomes))]
+            run.events.append(("handle", attr, list(args), dict(kwargs)))
+            return None
+
+        def recorder(nm):
+            def on_call(attr, args, kwargs):
+                if attr == "is_set":
+                    return False
+                run.events.append(("other", nm, attr, list(args), dict(kwargs)))
+                return None
+
+            return _Obj(f"constructor argument `{nm}`", on_call=on_call, any_completes_parent=False, completes_parent=False)
+
+        def request(attr, args, kwargs):
+            if attr != "__call__":
+                return _MISSING
+            i = sum(1 for e in run.events if e[0] == "request")
+            if i >= len(outcomes):
+                raise CannotEval("the executor issues more requests than the schedule holds")
+            run.events.append(("request", i))
+            return (outcomes[i][0], outcomes[i][1], run.metas[i])
+
+        def opaque_call(f, args, kwargs):
+            if f.label in ("time.perf_counter", "time.monotonic") and not args and not kwargs:
+                return run.clock[0]
+            if f.label == "time.time" and not args and not kwargs:
+                return 1.7e9 + run.clock[0]
+            if f.label == "asyncio.sleep":
+                d = args[0] if args else None
+                if not isinstance(d, (int, float)) or isinstance(d, bool):
+                    raise CannotEval(f"sleep duration {d!r}")
+                run.clock[0] += max(d, 0)
+                return None
+            return _MISSING
+
+        handle = _Obj("schedule handle", on_load=handle_load, on_call=handle_call)
+        self.machine = m = _Machine(drv, on_opaque_call=opaque_call, overrides={"execute_single": _Obj("execute_single", on_call=request)})
+        try:
+            ex = m.instantiate(_Cls(AE), [handle if nm == handle_at else recorder(nm) for nm in names], {})
+            m.call(m.load(ex, "__call__"), [], {})
+        except _Rse as x:
+            self.error = x.name()
+
+    def after(self, i):
+        """the events between the i-th request and the next one (or the end)"""
+        out, on = [], False
+        for e in self.events:
+            if e[0] == "request":
+                on = e[1] == i
+            elif on:
+                out.append(e)
+        return out
+
+
+def failed_request_feedback_rule(chk, rid, repo):
+    """With on-error=continue a failed request is an executed request like any other: it yields exactly one sample and the task goes on - for every target throughput, weight /
+    unit and error outcome. Between the finished request and the hand-over to the sampler the executor feeds the request's result back to the schedule (the unit-aware scheduler
+    learns the weight of a request from it and validates its unit against the unit of the target throughput). execute_single reports EVERY absorbed failure uniformly as zero
+    operations in the unit "ops" - whatever the operation reports when it succeeds - so this feedback must ignore such a result: if it raises (unit "ops" != "docs" of a target
+    given in docs/s, a division by the zero weight) the exception leaves the loop before the sample is recorded and aborts the task; if it takes the zero / foreign weight the
+    pacing of all later requests is off. Decided on VALUES, end to end, with the interpreter of rules/C05.py:
+      1. the failure results are read off execute_single's absorbing handlers (failure_results);
+      2. AsyncExecutor.__call__ is walked through a sequence of successful and failed requests (execute_single replaced by a stand-in returning those triples, _RequestsRun):
+         every request must hand exactly one sample to a constructor argument of the executor (the sampler), the failed ones included, and the executor must not raise;
+      3. the calls the walk makes on the schedule handle after each request with that request's result are replayed on the REAL handle (built by walking schedule_for, its
+         scheduler a recording stand-in) and what reaches the scheduler is replayed on the real unit-aware scheduler (built by walking its constructor with the arguments in the
+         roles scheduler_for passes them, the module's deterministic scheduler as delegate) for targets given in docs/s, ops/s and pages/s: no call may raise, and the gap between
+         consecutive requests (read off next(0)) must be weight * clients / target after a successful request and UNCHANGED after a failed one.
+    No name of a local, parameter or attribute of the executor, the handle or the scheduler is consulted (the scheduler API methods are whatever the walk calls)."""
+    from rules.C05 import _Cls, _close, _entry_origins, _Machine, _Obj, _Rse, _ScheduleRun, _unknown
+
+    drv, sch = repo.module(_D), repo.module(_S)
+    chk.use(sch)
+    chk.rule(rid, "a failed request (execute_single reports it as zero operations in the unit 'ops', success False) is an executed request like any other: the executor hands exactly "
+             "one sample to the sampler and goes on, and the feedback of its result to the schedule neither raises nor changes the pacing - whatever unit the target throughput is given in", 4,
+             "on-error=continue, a task throttled in docs/s / pages/s / MB/s and a request that fails (HTTP 429, a time-out): the exception leaves the request loop before the sample "
+             "is recorded - an executed request without a sample - and the task aborts although errors are to be recorded and skipped")
+    exf = drv.methods(drv.cls("AsyncExecutor")).get("__call__")
+    fails = failure_results(drv)
+    pairs = sorted({(o, un) for o, un, _ in fails if o is not None and un is not None}, key=repr)
+    if not pairs or any(o is None or un is None for o, un, _ in fails):
+        chk.unknown(rid, "the (operations, unit) execute_single reports for an absorbed failure is not a pair of literals in every handler: "
+                    f"{[(o, un) for o, un, _ in fails]}", fails[0][2] if fails else drv.func("execute_single"))
+        return
+    C = 4
+    UA = sch.cls("UnitAwareScheduler")
+    sf = sch.func("scheduler_for")
+    if not params_of(sf):
+        raise AnchorMissing("scheduler_for(task)")
+    sfp = params_of(sf)[0]
+    ctor = []
+    for c in ast.walk(sch.tree):
+        if isinstance(c, ast.Call) and last_attr(c.func) == UA.name and source.enclosing_func(c) is not None and not any(isinstance(a, ast.Starred) for a in c.args) \
+                and not any(k_.arg is None for k_ in c.keywords):
+            from_task = [sfp in _entry_origins(sch, sf, a, same=True) for a in list(c.args) + [k_.value for k_ in c.keywords]]
+            if from_task.count(True) == 1 and len(from_task) == 2:
+                ctor.append((c, from_task))
+    if len(ctor) != 1:
+        raise AnchorMissing(f"the construction UnitAwareScheduler(<the task scheduler_for is called with>, <delegate class>) in scheduler_for or a helper it calls ({len(ctor)} found)")
+    (ctor_site, ctor_from_task), = ctor
+    ua_fn = sch.methods(UA).get("after_request") or UA
+
+    def fail_meta():
+        return {"success": False, "error-type": "api", "error-description": "rejected", "http-status": 429}
+
+    def carried(e, i, seq, run):
+        vals = list(e[-2]) + list(e[-1].values())
+        return any(v is run.metas[i] for v in vals) or (any(v is not run.metas[i] and v == seq[i][0] and not isinstance(v, bool) for v in vals) and any(v == seq[i][1] for v in vals if isinstance(v, str)))
+
+    hr = _ScheduleRun(drv, {"warmup_iterations": 3, "iterations": 7})
+    if not isinstance(hr.handle, _Obj) or hr.scheduler is None:
+        raise AnchorMissing("the ScheduleHandle object schedule_for returns, with the scheduler scheduler_for gave it" + (f" (schedule_for raises {hr.error})" if hr.error else ""))
+    reached = []
+    hr.scheduler.on_call = lambda attr, a, k: reached.append((attr, list(a), dict(k)))
+
+    def drive(T, U, seq):
+        """seq: [(operations, unit, meta data)] -> (rows, not recognised): one row (error | None, gap after the request, samples handed over, feedback calls) per request"""
+        run = _RequestsRun(drv, seq)
+        m = _Machine(sch)
+        task = _Obj("task", target_throughput=_Obj("throughput", value=T, unit=U), clients=C, name="t")
+        vals = [task if t else _Cls(sch.cls("DeterministicScheduler")) for t in ctor_from_task]
+        n_pos = len(ctor_site.args)
+        ua = m.instantiate(_Cls(UA), vals[:n_pos], {k_.arg: v for k_, v in zip(ctor_site.keywords, vals[n_pos:])})
+        rows = []
+        for i in range(len(seq)):
+            evs = run.after(i)
+            samples = [e for e in evs if e[0] == "other" and any(v is run.metas[i] for v in list(e[3]) + list(e[4].values()))]
+            feedback = [e for e in evs if e[0] == "handle" and carried(e, i, seq, run)]
+            err = None
+            for _, attr, a, k in feedback:
+                del reached[:]
+                try:
+                    hr.machine.call(hr.machine.load(hr.handle, attr), a, k)
+                except _Rse as x:
+                    err = err or f"the schedule handle's {attr}() raises {x.name()}"
+                for attr2, a2, k2 in list(reached):
+                    try:
+                        m.call(m.load(ua, attr2), a2, k2)
+                    except _Rse as x:
+                        err = err or f"the scheduler's {attr2}({', '.join(repr(v) if not isinstance(v, dict) else '{..}' for v in a2)}) raises {x.name()}"
+            try:
+                gap = m.call(m.load(ua, "next"), [0.0], {})
+            except _Rse as x:
+                gap = f"raises {x.name()}"
+            rows.append((err, gap, len(samples), len(feedback)))
+        return rows, run
+
+    fo, fu = pairs[0]
+    # ---- 2. one sample per executed request, failed or not -----------------------------------------------------------------------------------------------------
+    for fo_, fu_ in pairs:
+        seq = [(5000, "docs", {"success": True}), (fo_, fu_, fail_meta()), (5000, "docs", {"success": True})]
+        run = _RequestsRun(drv, seq)
+        n_req = sum(1 for e in run.events if e[0] == "request")
+        per = [sum(1 for e in run.after(i) if e[0] == "other" and any(v is run.metas[i] for v in list(e[3]) + list(e[4].values()))) for i in range(n_req)]
+        if n_req == 0 or (run.error is None and not any(per)):
+            chk.unknown(rid, "the walk of AsyncExecutor.__call__ through a successful, a failed and a successful request " +
+                        ("issues no request" if n_req == 0 else "never hands the meta data of a request to a constructor argument of the executor (the sampler is not recognised)"), exf)
+            continue
+        ok = run.error is None and n_req == len(seq) and per == [1] * len(seq)
+        chk.ob(rid, f"a failed request ({fo_!r} {fu_!r}, success False) yields exactly one sample and the executor goes on", ok, exf,
+               f"requests: ok (5000 docs), failed ({fo_!r} {fu_!r}), ok (5000 docs) with a recording schedule handle: {n_req} request(s) executed, samples handed over per request {per}"
+               + (f", the executor raises {run.error}" if run.error else ""), key=f"{_D}:AsyncExecutor.__call__:failed-request:one-sample-and-go-on:{fo_!r}-{fu_}")
+    # ---- 3. the feedback of a failed request to the schedule -------------------------------------------------------------------------------------------------------
+    for T, U, w, wu in ((1000.0, "docs/s", 5000, "docs"), (100.0, "ops/s", 3, "ops"), (10.0, "pages/s", 5, "pages")):
+        seqs = [[(w, wu, {"success": True}), (fo, fu, fail_meta()), (w, wu, {"success": True}), (w // 2 or 1, wu, {"success": True})],
+                [(fo, fu, fail_meta()), (w, wu, {"success": True})]]
+        problems, shown, lost = [], [], None
+        for seq in seqs:
+            rows, run = drive(T, U, seq)
+            if any(r[3] == 0 for r in rows):
+                lost = lost or "the walk of the executor makes no call on the schedule handle that carries the result of a request (no feedback to replay)"
+                continue
+            if _unknown([r[1] for r in rows]) is not None:
+                lost = lost or f"next(0) of the unit-aware scheduler gives a value the walk does not know ({_unknown([r[1] for r in rows])!r})"
+                continue
+            prev = 0
+            for (ops, unit, meta), (err, gap, _, _) in zip(seq, rows):
+                failed = not meta["success"]
+                want = prev if failed else ops * C / T
+                what = f"{'failed' if failed else 'ok'} ({ops!r} {unit})"
+                shown.append(f"{what} -> gap {gap if not isinstance(gap, float) else format(gap, 'g')}s" + (f" [{err}]" if err else ""))
+                if err and failed:
+                    problems.append(f"after a {what} request {err}")
+                elif not err and failed and not (_close(gap, want) if want else (gap == 0 and not isinstance(gap, bool))):
+                    problems.append(f"a {what} request changes the gap between requests from {prev:g}s to {gap!r}s")
+                elif not failed and (err or not _close(gap, want)):
+                    problems.append(f"after a {what} request " + (err or f"the gap is {gap!r}s (expected {want:g}s)"))
+                prev = gap if isinstance(gap, (int, float)) and not isinstance(gap, bool) else prev
+            shown.append("|")
+        shown = "; ".join(", ".join(part) for part in _split(shown, "|"))
+        if lost is not None and not problems:
+            chk.unknown(rid, f"target throughput {T:g} {U}: {lost}", ua_fn)
+            continue
+        chk.ob(rid, f"target in {U}: the feedback of a failed request neither raises nor changes the pacing", not problems, ua_fn,
+               f"{C} clients, target {T:g} {U}, failure result ({fo!r} {fu!r}); " + shown + ("" if not problems else " - " + "; ".join(problems[:2])
+               + ": the exception leaves the request loop before the sample is recorded and aborts the task" * bool(any("raises" in p for p in problems))),
+               key=f"{_S}:UnitAwareScheduler.after_request:failed-request-ignored:{U}")
+
+
 def may_carry(a, src, scope_func, defs, mod, depth=3):
     """the expression a can evaluate to the value of the local `src` on some path: it is that name, a local bound to such an expression (any of its bindings in scope_func),
     an arm of a conditional expression / operand of `or` / `and`, or the result of a helper (method of the class / function of the module) that returns the parameter this
@@ -1444,9 +1943,16 @@ def run(chk):
         "exactly one sampler.add per request on every normal path; positional field flow loop -> Sampler.add -> Sample attributes; uniform error result and abort condition; "
         "the zero point of the throughput schedule (what the throttled latency adds to the scheduled time) is a clock reading not earlier than the end of the client's "
         "ramp-up wait, decided by walking the extracted start-up statements on a virtual clock (O4.7); a wire request of the async client that fails at any stage has its end "
-        "recorded on every exceptional exit of the client's perform_request chain (O4.8)."
+        "recorded on every exceptional exit of the client's perform_request chain (O4.8). "
+        "Decided on values with the statement interpreter of rules/C05.py: the timer that decides the sample type of a request starts at the executor's entry, before the "
+        "ramp-up wait (O4.9, obligation owned by C05); the executor is walked through successful and failed requests - the result triples execute_single reports - and must "
+        "hand exactly one sample per request to the sampler, and the feedback calls it makes on the schedule handle are replayed on the real handle and the real unit-aware "
+        "scheduler for targets in docs/s, ops/s and pages/s: a failed request neither raises nor changes the pacing (O4.10); the capacity of the sampler's bounded queue - "
+        "the one place where a recorded sample is dropped - is the constructor argument, and every Sampler(...) of the driver is handed the configured "
+        "reporting/sample.queue.size with the documented default (O4.11, data flow + evaluation on a representative capacity)."
     )
-    chk.not_decided = "numeric non-negativity (clock behaviour), growth of latency while behind schedule as a number, behaviour of third-party trace callbacks."
+    chk.not_decided = ("numeric non-negativity (clock behaviour), growth of latency while behind schedule as a number, behaviour of third-party trace callbacks, whether the "
+                       "configured sample queue size suffices for the request rate of a run (a runtime quantity), schedulers registered by track plugins.")
     doc = repo.text("docs/metrics.rst")
     chk.rule("O4.0", "docs/metrics.rst still defines latency, service_time and processing_time as encoded in the formula table", 3, "the oracle moved")
     for key, phrase in (("latency", "``latency``: Time period between submission of a request and receiving the complete response"),
@@ -1927,6 +2433,10 @@ def run(chk):
     except AnchorMissing as e:  # a role of O4.7 that cannot be located must not keep O4.8 from being evaluated
         pending = e
     failed_request_end_rule(chk, "O4.8", repo)
+    from rules.C05 import _section  # (a role one of these rules cannot locate / evaluate makes THAT rule inconclusive and does not hide the verdicts of the others)
+
+    for rule_fn, rid in ((sample_type_clock_rule, "O4.9"), (failed_request_feedback_rule, "O4.10"), (sampler_capacity_rule, "O4.11")):
+        _section(chk, rid, rule_fn, chk, rid, repo)
     if pending is not None:
         raise pending
 
@@ -2643,4 +3153,68 @@ VARIANTS += [
     V("h3 break: two calls record the sample on one path of an iteration (the first one under a condition)", "break", _D, _ADD_CALL_ARGS,
       "                if throughput_throttled:\n" + "".join("    " + l + "\n" for l in _ADD_CALL_ARGS.splitlines()) + _ADD_CALL_ARGS, "O4.4"),
     V("h3 break: the abort condition consults no error flag at all", "break", _D, "        if on_error == \"abort\" or fatal_error:", "        if on_error == \"abort\":", "O4.6"),
+]
+
+# ---- strengthening round 5: O4.9 (sample type follows the task's clock), O4.10 (a failed request passes the feedback to the schedule), O4.11 (the sampler's queue holds what the
+# configuration says) --------------------------------------------------------------------------------------------------------------------------------------------------------------
+_TIMER_START = "        # Start the schedule's timer early so the warmup period is independent of any deferred start due to ramp-up\n        self.schedule_handle.start()\n"
+_UA_GUARD = "        if weight > 0 and (self.first_request or self.current_weight != weight):\n"
+_UA_STATE = "            self.first_request = False\n            self.current_weight = weight\n"
+_SH_FEEDBACK = "        self.sched.after_request(now, weight, unit, request_meta_data)\n"
+_SAMPLER_MADE = "                self.sampler = Sampler(start_timestamp=time.perf_counter(), buffer_size=self.sample_queue_size)\n"
+_QSIZE_READ = "        self.sample_queue_size = int(self.config.opts(\"reporting\", \"sample.queue.size\", mandatory=False, default_value=1 << 20))\n"
+_Q_MADE = "        self.q = queue.Queue(maxsize=buffer_size)\n"
+VARIANTS += [
+    # O4.9
+    [V("s5 seed m15: the schedule's timer is started after the ramp-up wait, next to the schedule's zero point", "break", _D, _TIMER_START, "", "O4.9"),
+     V("", "break", _D, _ZERO, _ZERO + "        self.schedule_handle.start()\n")],
+    [V("s5 break: the schedule's timer is started as the first statement of the request loop's try block (after the ramp-up wait)", "break", _D, _TIMER_START, "", "O4.9"),
+     V("", "break", _D, "        try:\n            async for expected_scheduled_time,", "        try:\n            self.schedule_handle.start()\n            async for expected_scheduled_time,")],
+    V("s5 break: the schedule's timer is started early and RE-started by a client that had to wait for its ramp-up slot", "break", _D,
+      "            await asyncio.sleep(rampup_wait_time)\n", "            await asyncio.sleep(rampup_wait_time)\n            self.schedule_handle.start()\n", "O4.9"),
+    V("s5 keep: the ramp-up wait amount is read before the timer is started (both still before the wait)", "keep", _D,
+      _TIMER_START + "        rampup_wait_time = self.schedule_handle.ramp_up_wait_time\n", "        rampup_wait_time = self.schedule_handle.ramp_up_wait_time\n" + _TIMER_START),
+    V("s5 keep: the timer is started through a local alias of the handle", "keep", _D, _TIMER_START, "        handle = self.schedule_handle\n        handle.start()\n"),
+    # O4.10
+    [V("s5 seed m13: the unit-aware scheduler validates the unit of a failed request before it ignores the empty result", "break", _S, _UA_GUARD,
+       "        if self.first_request or self.current_weight != weight:\n", "O4.10"),
+     V("", "break", _S, _UA_STATE, "            if weight <= 0:\n                return\n" + _UA_STATE)],
+    V("s5 break: the unit-aware scheduler no longer ignores empty results at all (unit check and a division by the zero weight)", "break", _S, _UA_GUARD,
+      "        if self.first_request or self.current_weight != weight:\n", "O4.10"),
+    V("s5 break: the unit-aware scheduler takes the zero weight of a failed request (>= instead of >)", "break", _S, _UA_GUARD,
+      "        if weight >= 0 and (self.first_request or self.current_weight != weight):\n", "O4.10"),
+    V("s5 break: the schedule handle refuses the feedback of a failed request", "break", _D, _SH_FEEDBACK,
+      "        if not request_meta_data[\"success\"]:\n            raise exceptions.RallyAssertionError(\"no feedback for a failed request\")\n" + _SH_FEEDBACK, "O4.10"),
+    V("s5 break: the executor skips the rest of the iteration - the sample included - for a failed request", "break", _D,
+      "                throughput = request_meta_data.pop(\"throughput\", None)\n", "                if not request_meta_data[\"success\"]:\n                    continue\n"
+      "                throughput = request_meta_data.pop(\"throughput\", None)\n", "O4.10"),
+    V("s5 break: a failed request resets what the unit-aware scheduler has learnt (the next successful request with the same weight is not re-paced after the first failure)", "break", _S, _UA_GUARD,
+      "        if weight <= 0:\n            self.scheduler = Unthrottled()\n        if weight > 0 and (self.first_request or self.current_weight != weight):\n", "O4.10"),
+    V("s5 keep: the unit-aware scheduler ignores empty results by a guard clause in front of everything else", "keep", _S, _UA_GUARD,
+      "        if weight <= 0:\n            return\n        if self.first_request or self.current_weight != weight:\n"),
+    V("s5 keep: the schedule handle forwards the feedback with keyword arguments", "keep", _D, _SH_FEEDBACK,
+      "        self.sched.after_request(now=now, weight=weight, unit=unit, request_meta_data=request_meta_data)\n"),
+    V("s5 keep: the executor feeds the result back to the schedule through a local alias of the bound method", "keep", _D,
+      "                self.schedule_handle.after_request(processing_end, total_ops, total_ops_unit, request_meta_data)\n",
+      "                feedback = self.schedule_handle.after_request\n                feedback(processing_end, total_ops, total_ops_unit, request_meta_data)\n"),
+    # O4.11
+    V("s5 seed m14: the worker's sampler is constructed without the configured queue size", "break", _D, _SAMPLER_MADE,
+      "                self.sampler = Sampler(start_timestamp=time.perf_counter())\n", "O4.11"),
+    V("s5 break: the worker's sampler is constructed with a constant queue size", "break", _D, _SAMPLER_MADE,
+      "                self.sampler = Sampler(start_timestamp=time.perf_counter(), buffer_size=16384)\n", "O4.11"),
+    V("s5 break: the sampler ignores the queue size it is constructed with", "break", _D, _Q_MADE, "        self.q = queue.Queue(maxsize=16384)\n", "O4.11"),
+    V("s5 break: the configured queue size is clamped to the old default", "break", _D, _QSIZE_READ,
+      "        self.sample_queue_size = min(int(self.config.opts(\"reporting\", \"sample.queue.size\", mandatory=False, default_value=1 << 20)), 16384)\n", "O4.11"),
+    V("s5 break: the configured queue size is no longer converted to a number (an ini file gives text: put_nowait raises a TypeError instead of recording the sample)", "break", _D, _QSIZE_READ,
+      "        self.sample_queue_size = self.config.opts(\"reporting\", \"sample.queue.size\", mandatory=False, default_value=1 << 20)\n", "O4.11"),
+    V("s5 break: the queue size is read from another option", "break", _D, _QSIZE_READ,
+      "        self.sample_queue_size = int(self.config.opts(\"reporting\", \"metrics.request.downsample.factor\", mandatory=False, default_value=1 << 20))\n", "O4.11"),
+    V("s5 break: the default of the queue size is 2^10 instead of the documented 2^20", "break", _D, _QSIZE_READ,
+      "        self.sample_queue_size = int(self.config.opts(\"reporting\", \"sample.queue.size\", mandatory=False, default_value=1 << 10))\n", "O4.11"),
+    V("s5 keep: the sampler is constructed with positional arguments", "keep", _D, _SAMPLER_MADE, "                self.sampler = Sampler(time.perf_counter(), self.sample_queue_size)\n"),
+    V("s5 keep: the configured queue size handed over through a local", "keep", _D, _SAMPLER_MADE,
+      "                queue_size = self.sample_queue_size\n                self.sampler = Sampler(start_timestamp=time.perf_counter(), buffer_size=queue_size)\n"),
+    V("s5 keep: the queue's capacity passed positionally, the default spelled 2 ** 20", "keep", _D, _Q_MADE, "        self.q = queue.Queue(buffer_size)\n"),
+    V("s5 keep: the default of the queue size spelled as a power", "keep", _D, _QSIZE_READ,
+      "        self.sample_queue_size = int(self.config.opts(\"reporting\", \"sample.queue.size\", mandatory=False, default_value=2 ** 20))\n"),
 ]
